@@ -34,6 +34,8 @@ type poolCmd struct {
 	ro     bool                                               // must not change dataset or file
 	gops   []string                                           // the same command for the model of the global tables
 	probe  string                                             // "read": the reply lists what the script sees of other borrowers' globals; "assign": it must be refused
+	filter     bool                                           // the Lua code runs as a WHEREEVAL filter
+	assignUser int
 }
 
 type poolGen struct {
@@ -162,7 +164,41 @@ func (g *poolGen) failingScan(tolerated bool) poolCmd {
 			fmt.Sprintf("i.%d.whereevalT.match.0", u), fmt.Sprintf("i.%d.whereevalT.match.0", u), fmt.Sprintf("i.%d.whereevalT.match.1", u), fmt.Sprintf("r.%d", u)}}
 }
 
-const probeRead = "return tostring(ID) .. '|' .. tostring(FIELDS) .. '|' .. tostring(PROPERTIES) .. '|' .. tostring(KEYS[1]) .. '|' .. tostring(ARGV[1])"
+const probeRead = "return tostring(ID) .. '|' .. tostring(FIELDS) .. '|' .. tostring(PROPERTIES) .. '|' .. tostring(KEYS[1]) .. '|' .. tostring(ARGV[1]) .. '|' .. tostring(DEADLINE) .. '|' .. tostring(zz_any)"
+
+// the names a script may try to keep something under: the per-call globals of both borrowers and a name nobody uses
+var assignNames = []string{"KEYS", "ARGV", "DEADLINE", "EVAL_CMD", "ID", "FIELDS", "PROPERTIES", "zz_any"}
+
+// does the name exist in the global table while the Lua code of that borrower runs?
+func existsDuring(filter bool, name string) bool {
+	if filter {
+		return name == "ARGV" || name == "ID" || name == "FIELDS" || name == "PROPERTIES"
+	}
+	return name == "KEYS" || name == "ARGV" || name == "EVAL_CMD"
+}
+
+// a script / a WHEREEVAL filter that assigns a global and leaves: `<name> = 'token-…'`
+func (g *poolGen) assign(variant string, name string) poolCmd {
+	u := g.user()
+	tok := "token-" + g.val()
+	if variant == "FILTER" {
+		return poolCmd{words: []string{"SCAN", "pg", "WHEREEVAL", name + " = '" + tok + "' return true", "0", "COUNT"}, desc: "SCAN pg with a WHEREEVAL filter that assigns " + name, ro: true, probe: "assign:" + name, filter: true,
+			ops: []string{fmt.Sprintf("g.%d.f.scan", u), fmt.Sprintf("x.%d", u)}, assignUser: u}
+	}
+	mode := strings.ToLower(variant)
+	return poolCmd{words: []string{variant, name + " = '" + tok + "' return 1", "0"}, desc: variant + " <script that assigns " + name + ">", ro: strings.HasPrefix(mode, "evalro"), probe: "assign:" + name,
+		ops: []string{fmt.Sprintf("g.%d.e.%s", u, mode), fmt.Sprintf("s.%d", u), fmt.Sprintf("x.%d", u)}, assignUser: u}
+}
+
+// a WHEREEVAL filter that looks for what earlier borrowers left: every object passes iff there is nothing
+func (g *poolGen) filterProbe() poolCmd {
+	u := g.user()
+	f := "return KEYS == nil and DEADLINE == nil and EVAL_CMD == nil and zz_any == nil"
+	return poolCmd{words: []string{"SCAN", "pg", "WHEREEVAL", f, "0", "COUNT"}, desc: "SCAN pg with a WHEREEVAL filter that looks for KEYS/DEADLINE/EVAL_CMD/zz_any", ro: true, probe: "filter-read", filter: true,
+		ops: []string{fmt.Sprintf("g.%d.f.scan", u), fmt.Sprintf("x.%d", u)},
+		gops: []string{fmt.Sprintf("b.%d.1", u), fmt.Sprintf("i.%d.Server.parseSearchScanBaseTokens.0", u),
+			fmt.Sprintf("i.%d.whereevalT.match.0", u), fmt.Sprintf("i.%d.whereevalT.match.0", u), fmt.Sprintf("i.%d.whereevalT.match.0", u), fmt.Sprintf("r.%d", u)}}
+}
 
 // a script that looks for what other borrowers of its interpreter left behind / tries to keep something there
 func (g *poolGen) probe(variant string, kind string) poolCmd {
@@ -237,6 +273,9 @@ func runPoolHistory(r *hx.Result, cfg hx.Config, rng *rand.Rand, drv *model.Driv
 	c := s.MustDial()
 	defer c.Close()
 	c.Timeout = 6 * time.Second
+	c2 := s.MustDial()
+	defer c2.Close()
+	c2.Timeout = 6 * time.Second
 	c.MustDo("SET", "pk", "a", "STRING", "x")
 	c.MustDo("SET", "wk", "e", "STRING", "original")
 	c.MustDo("SET", "wk", "f", "STRING", "original")
@@ -256,6 +295,11 @@ func runPoolHistory(r *hx.Result, cfg hx.Config, rng *rand.Rand, drv *model.Driv
 			hist = append(hist, g.failingScan(tol), g.probe("EVAL", "read"), g.probe("EVALRO", "assign"), g.probe("EVALRO", "read"),
 				g.evalWithKeys(), g.probe("EVALNA", "read"), g.failingScan(tol), g.probe("EVAL", "assign"), g.probe("EVALSHA", "read"))
 		}
+		// every name, assigned from both kinds of borrower, then looked for by both kinds (from the other connection)
+		for _, name := range assignNames {
+			hist = append(hist, g.assign("FILTER", name), g.filterProbe(), g.probe("EVAL", "read"),
+				g.assign([]string{"EVAL", "EVALRO", "EVALNA"}[len(name)%3], name), g.probe("EVALRO", "read"), g.filterProbe())
+		}
 	}
 	for len(hist) < ncmd {
 		x := rng.Intn(100)
@@ -270,6 +314,10 @@ func runPoolHistory(r *hx.Result, cfg hx.Config, rng *rand.Rand, drv *model.Driv
 			hist = append(hist, g.probe([]string{"EVAL", "EVALSHA", "EVALRO", "EVALROSHA", "EVALNA"}[rng.Intn(5)], []string{"read", "read", "assign"}[rng.Intn(3)]))
 		case x < 63:
 			hist = append(hist, g.evalWithKeys())
+		case x < 72:
+			hist = append(hist, g.assign([]string{"FILTER", "FILTER", "EVAL", "EVALRO", "EVALNA"}[rng.Intn(5)], assignNames[rng.Intn(len(assignNames))]))
+		case x < 78:
+			hist = append(hist, g.filterProbe())
 		case x < 80:
 			hist = append(hist, g.nested([]string{"EVAL", "EVALSHA", "EVALRO", "EVALROSHA", "EVALNA", "EVALNASHA"}[rng.Intn(6)]))
 		default:
@@ -295,7 +343,11 @@ func runPoolHistory(r *hx.Result, cfg hx.Config, rng *rand.Rand, drv *model.Driv
 			before = stateOf(c)
 			size = aofSize(dir)
 		}
-		reply, err := c.Do(words...)
+		conn := c
+		if i%2 == 1 {
+			conn = c2 // the pool is the server's: the next borrower is whoever comes next, on any connection
+		}
+		reply, err := conn.Do(words...)
 		trail = append(trail, pc.desc)
 		if len(trail) > 12 {
 			trail = trail[1:]
@@ -321,6 +373,27 @@ func runPoolHistory(r *hx.Result, cfg hx.Config, rng *rand.Rand, drv *model.Driv
 		}
 		ops = append(ops, pc.ops...)
 		// the global tables: what the model says the interpreters in the pool carry after this command
+		if strings.HasPrefix(pc.probe, "assign:") {
+			name := strings.TrimPrefix(pc.probe, "assign:")
+			u := pc.assignUser
+			if pc.filter {
+				pc.gops = []string{fmt.Sprintf("b.%d.1", u), fmt.Sprintf("i.%d.Server.parseSearchScanBaseTokens.0", u)}
+				if reply.Kind == '-' { // refused on the first object: the query failed there
+					pc.gops = append(pc.gops, fmt.Sprintf("i.%d.whereevalT.match.1~%s=v", u, name))
+				} else {
+					for k := 0; k < 3; k++ {
+						pc.gops = append(pc.gops, fmt.Sprintf("i.%d.whereevalT.match.0~%s=v", u, name))
+					}
+				}
+				pc.gops = append(pc.gops, fmt.Sprintf("r.%d", u))
+			} else {
+				pc.gops = []string{fmt.Sprintf("b.%d.0", u), fmt.Sprintf("i.%d.Server.cmdEvalUnified.0~%s=v", u, name), fmt.Sprintf("r.%d", u)}
+			}
+			// a name that does not exist while the code runs must be refused by the __newindex guard
+			if !existsDuring(pc.filter, name) && reply.Kind != '-' {
+				r.Fail(hx.Failure{Kind: "oracle", Signature: "sandbox-new-global-accepted", What: fmt.Sprintf("pool history %d command %d: %s was accepted (%s): the script created the global %s", hnum, i, pc.desc, reply.String(), name), Case: map[string]interface{}{"last_commands": trail, "command": words}})
+			}
+		}
 		if pc.gops == nil {
 			pc.gops = globalsOpsOf(pc.ops)
 		}
@@ -330,7 +403,7 @@ func runPoolHistory(r *hx.Result, cfg hx.Config, rng *rand.Rand, drv *model.Driv
 		case "read":
 			seen := []string{}
 			parts := strings.Split(reply.Str, "|")
-			for k, name := range []string{"ID", "FIELDS", "PROPERTIES", "KEYS[1]", "ARGV[1]"} {
+			for k, name := range []string{"ID", "FIELDS", "PROPERTIES", "KEYS[1]", "ARGV[1]", "DEADLINE", "zz_any"} {
 				if reply.Kind != '$' || k >= len(parts) || parts[k] != "nil" {
 					seen = append(seen, name)
 				}
@@ -340,6 +413,13 @@ func runPoolHistory(r *hx.Result, cfg hx.Config, rng *rand.Rand, drv *model.Driv
 			}
 			if (len(seen) > 0) != (leftBefore != "") {
 				r.Fail(hx.Failure{Kind: "correspondence", Signature: "globals-model", What: fmt.Sprintf("pool history %d command %d: the model says the pooled interpreters carry [%s] beyond the allow-list, the probe sees %v", hnum, i, leftBefore, seen), Case: map[string]interface{}{"last_commands": trail}})
+			}
+		case "filter-read":
+			if reply.Kind != ':' || reply.Int != 3 {
+				r.Fail(hx.Failure{Kind: "oracle", Signature: "globals-survive-in-pooled-interpreter", What: fmt.Sprintf("pool history %d command %d: a WHEREEVAL filter sees KEYS / DEADLINE / EVAL_CMD / zz_any of an earlier borrower of its interpreter (it let %s of 3 objects through)", hnum, i, reply.String()), Case: map[string]interface{}{"last_commands": trail}})
+			}
+			if (reply.Kind != ':' || reply.Int != 3) != (leftBefore != "") {
+				r.Fail(hx.Failure{Kind: "correspondence", Signature: "globals-model", What: fmt.Sprintf("pool history %d command %d: the model says the pooled interpreters carry [%s] beyond the allow-list, the filter probe answered %s", hnum, i, leftBefore, reply.String()), Case: map[string]interface{}{"last_commands": trail}})
 			}
 		case "assign":
 			if reply.Kind != '-' {
